@@ -131,7 +131,28 @@ static std::string judge_valid(const std::string& text, const MV& root, const re
 }
 
 // wrong continuation of a prefix of an existing path
-static refjson::Path gen_wrong_path(Src& s, const MV& root, std::string& kind) {
+// raw spelling of a key as render_string(escapes=false) writes it, or "" if it needs a \\u escape (random hex case)
+static std::string raw_spelling(const std::string& k) {
+  std::string o;
+  bool any = false;
+  for (unsigned char c : k) {
+    switch (c) {
+      case '"': o += "\\\""; any = true; break;
+      case '\\': o += "\\\\"; any = true; break;
+      case '\b': o += "\\b"; any = true; break;
+      case '\f': o += "\\f"; any = true; break;
+      case '\n': o += "\\n"; any = true; break;
+      case '\r': o += "\\r"; any = true; break;
+      case '\t': o += "\\t"; any = true; break;
+      default:
+        if (c < 0x20) return "";
+        o.push_back((char)c);
+    }
+  }
+  return any ? o : "";
+}
+
+static refjson::Path gen_wrong_path(Src& s, const MV& root, std::string& kind, bool raw_ok = false) {
   refjson::Path p = gen_existing_path(s, root, 8);
   if (!p.empty() && s.coin(1, 2)) p.resize(s.index(p.size() + 1));
   const MV* cur = refjson::resolve(root, p);
@@ -154,6 +175,19 @@ static refjson::Path gen_wrong_path(Src& s, const MV& root, std::string& kind) {
     }
     case MV::Obj: {
       size_t n = cur->o.size();
+      if (raw_ok && n && s.coin(1, 2)) {
+        // the pointer key is byte-for-byte the RAW (still escaped) spelling of a member name: must not match it
+        std::vector<std::string> raws;
+        for (auto& kv : cur->o) {
+          std::string r = raw_spelling(kv.first);
+          if (!r.empty() && !cur->find(r)) raws.push_back(r);
+        }
+        if (!raws.empty()) {
+          p.push_back(refjson::Step::K(s.oneof(raws)));
+          kind = "raw-spelling-of-escaped-key";
+          break;
+        }
+      }
       switch (s.weighted({4, n ? 3u : 0u, 3, 2, n == 0 ? 5u : 0u})) {
         case 0: {
           std::string k = "absent";
@@ -207,6 +241,8 @@ static void property_c10(Src& s, Case& c) {
   Layout lay;
   lay.ws = (int)s.weighted({3, 4, 3});
   lay.pad_max = s.coin(1, 2) ? 130 : 0;
+  const bool raw_ok = s.coin(1, 4);  // keys spelled with the minimal (deterministic) escapes: raw spellings are predictable
+  if (raw_ok) lay.escapes = false;
   MV v = gen_value(s, go);
   std::string text = render(s, v, lay);
   int place = (int)s.weighted({2, 2, 1});
@@ -220,7 +256,7 @@ static void property_c10(Src& s, Case& c) {
     refjson::Path p;
     std::string kind = "existing";
     if (s.coin(1, 2)) p = gen_existing_path(s, v, 10);
-    else p = gen_wrong_path(s, v, kind);
+    else p = gen_wrong_path(s, v, kind, raw_ok);
     const MV* want = refjson::resolve(v, p);
     if (want && kind != "existing") kind = "existing";
     c.cls(std::string(want ? "hit:" : "miss:") + kind);
